@@ -1539,6 +1539,15 @@ def c10(tier):
             t2["scen"]["actors"][0]["host"] = host
             t2["id"] += "-" + host
             st.append(t2)
+    # resubmit-jobs as soon as the completion flag is on disk, i.e. while the completing process may still hold the role
+    for g in ("pair", "chain2"):
+        bb = S.REP[g]
+        n = len(bb)
+        for host in ("login1", "login7", "n102"):
+            actors = [rec_actor(n), dict(name="resub", argv=resub_argv(1, 1, 1), host=host, guard="complete_any"),
+                      dict(name="rec2", argv=["jade", "try-submit-jobs", "{out}"], host="login2", guard="idle_incomplete", after="resub", repeat=n + 2)]
+            sc = mk_scen(bb, dict(size=1, max_nodes=None), actors=actors)
+            st.append(dict(id=f"resub-at-completion-{g}-{host}", scen=sc, oracles=["Obs", "C10S"], budget=(0, 0), cls="resubmit-while-role-held"))
     # a user command arriving while another process is INSIDE a critical section (sync level L2, 1 preemption by or of
     # the intruder; its start is free): resubmit-jobs, cancel-jobs, try-submit-jobs
     intruders = [("resubmit", resub_argv(1, 1, 0)), ("trysubmit", ["jade", "try-submit-jobs", "{out}"]), ("cancel", ["jade", "cancel-jobs", "{out}"])]
@@ -1556,7 +1565,7 @@ def c10(tier):
         t["id"] = "c10s-" + t["id"]
     tasks += st
     bounds += ("; system level: the submitter field on disk across real submit-jobs / run-jobs / try-submit-jobs processes (REP graphs, "
-               f"{sb[0]} preemption(s); user-run try-submit-jobs at any point from the submitter's host and another; try-submit-jobs on a submission that is completing / complete; cancel-jobs at any point from three hosts; resubmit-jobs / try-submit-jobs / cancel-jobs started while another process is inside a critical section (sync level L2, 1 preemption by or of the intruder))")
+               f"{sb[0]} preemption(s); user-run try-submit-jobs at any point from the submitter's host and another; try-submit-jobs on a submission that is completing / complete; cancel-jobs at any point from three hosts; resubmit-jobs as soon as the completion flag is on disk (the completing process may still hold the role); a process that holds the role never has a write rejected; resubmit-jobs / try-submit-jobs / cancel-jobs started while another process is inside a critical section (sync level L2, 1 preemption by or of the intruder))")
     return explore_check("C10", tier, tasks, F_RULE + "; the system-level scenarios use the mode-S rule", F_ASSUMPTIONS + ["reference for return values/final files: the same operations executed one at a time in lock-acquisition order by the real Cluster class (linearizability witness); mutual exclusion, promotion and stale-write clauses are independent of it"], dict(bounds=bounds))
 
 
